@@ -36,6 +36,34 @@ CHECKS = {
         "Bounded to 4 items and 8 rounds; the usage protocol is the one in the property (checked against real traces, not assumed).",
         "§4 C26",
     ),
+    "C12": (
+        "capy-verif tyrel-mc",
+        "bounded-exhaustive enumeration of ordered type pairs over a depth-<=2 type universe against the algebraic laws of the statement, on the real Ty relation methods",
+        "All ordered pairs of a 9918-type universe (every primitive, weak literal types, nil, void, two structurally identical enums and their variants, 14-20 constructors nested twice, uids unique per declaration) are pushed through the real can_fit_into / can_cast_to / is_weak_replaceable_by / max (quick: depth<=1 x depth<=2 in both orders, 1.3e7 pairs; thorough: 9.8e7 pairs); laws L1-L5 of the statement are checked on every pair and no call may panic.",
+        "Laws are checked on the relation methods themselves; Unknown/NotYetResolved/AlwaysJumps/File/function-item types are outside the universe; a uid never denotes two different types (no generic-instantiated nominal types).",
+        "§4 C12",
+    ),
+    "C17": (
+        "capy-verif layout-mc",
+        "bounded-exhaustive enumeration of types x pointer widths against the statement's invariants, an independent reference layout calculator and the host C compiler's offsetof",
+        "Every type of the depth-<=2 universe and every struct of <= 3 (thorough 4) members and enum of <= 3 (4) variants over 22 sized primitives, for pointer widths 64 and 32 (one process each), is laid out by the real calc_layouts (hook H1) and checked against (a) the invariants of the statement, (b) a reference calculator written from the statement, (c) gcc's sizeof/_Alignof/offsetof for every struct of C scalars; the first 2000 types are re-queried after all others (cache history).",
+        "Depth 3 of the quantifier is reached only by aggregates of depth-0 members; no random types; 128-bit members are excluded from the C comparison.",
+        "§4 C17",
+    ),
+    "C24": (
+        "capy-verif prec-mc",
+        "bounded-exhaustive enumeration of expression trees, printed by the precedence table (model) and read back from the real parser through the ast accessors",
+        "Every tree of binary depth 2 over all 18 binary operators with 15 operand forms, depth 2 over 7 level representatives x 3 leaves, depth 3 over 5 representatives, every operator pair to depth 3 (thorough 4) and every operator triple to depth 3, and every prefix/postfix stack of height <= 3 at both operand positions of every level: each printed with minimal and with full parentheses, parsed by the real parser (zero syntax errors required) and compared node by node with the printed tree.",
+        "The statement does not order prefix against postfix operators, so those are always printed with explicit parentheses; depth 5 of the quantifier is not reached.",
+        "§4 C24",
+    ),
+    "C27": (
+        "capy-verif mangle-mc",
+        "bounded-exhaustive enumeration of entity descriptors through the real manglers with injectivity as the oracle; known collisions attributed by defect models",
+        "Every file path of <= 3 (thorough 4) components over {a, b, 1, f1, 1a, a.b, a-b, src, a.capy, m} under the working directory and under the module directory x 670 (thorough 3894) entities (globals, lambdas, generic instances, comptime blocks and their data, indices 0/1/12/123 (thorough up to 999)) is mangled by the real Mangle impls (hook H1); no two different descriptors may share a name, and no name may equal `main` or an internal symbol.",
+        "Entity identity = (file path, entity tuple); four known collision classes are excused only when the listed defect model makes the two descriptors equal.",
+        "§4 C27",
+    ),
     "C06_pending": (
         "capy-verif front-mc",
         "bounded-exhaustive input enumeration and deviation-bounded (1 edit) mutation of the corpus through the complete in-process pipeline in supervised worker processes",
